@@ -9,6 +9,7 @@
  *   probe                       run the fixed probe evaluation (apply "probe" in object `probe`)
  *   input <oid> <text>          what the backend does with a pending input_to: call_function_interactive()
  *                               inside a driver-level error context
+ *   injectsafe <oid> <fn> <n>   like inject, but the evaluation is the driver's safe_apply(fn, ob, n) with n pushed numbers
  *   inject <oid> <fn> [<reg> <oid>]
  *        N = number of instructions of the fault-free evaluation  <oid>-><fn>()  (preceded by <oid>->prep()).
  *        Then for every k in 1..N: prep, snapshot, evaluation with the fault raised at instruction k inside a
@@ -43,6 +44,7 @@ extern void reset_load_object_limits (void);
 extern void reset_destruct_object_limits (void);
 
 static long c05_maxk = 0;	/* 0 = all k */
+static int safe_nargs = -1;	/* >= 0: the evaluation is safe_apply() from driver level with that many arguments */
 
 static const char *oname (object_t * ob)
 {
@@ -261,7 +263,18 @@ static unsigned long evaluate_k (object_t * ob, const char *fn, long k, const ch
           eval_cost = CONFIG_INT (__MAX_EVAL_COST__);
           verif_instruction_count = 0;
           verif_fault_countdown = k;
-          if (!strcmp (fn, "<call_out>"))
+          if (safe_nargs >= 0)
+            {
+              /* what the driver's C callers do (window_size, resolve callbacks, ed, master applies): push the
+                 arguments, safe_apply(); the value it returns is not used */
+              for (int i = 0; i < safe_nargs; i++)
+                push_number (i + 1);
+              (void) safe_apply (shared, ob, safe_nargs, ORIGIN_DRIVER);
+              verif_fault_countdown = 0;
+              count = verif_instruction_count;
+              snprintf (res, sizeof res, "done co");
+            }
+          else if (!strcmp (fn, "<call_out>"))
             {
               /* the backend's timer tick: the real call_out() of lib/efuns/call_out.c with its own recovery point */
               current_time += 2;
@@ -448,6 +461,14 @@ static int c05_cmd (char *line)
       evaluate_k (ob, tok[2], 0, 0, 0, out, sizeof out);
       vh_out ("run %s", out);
       return 1;
+    }
+  safe_nargs = -1;
+  if (!strcmp (tok[0], "injectsafe") && n == 4)
+    {
+      static char *ij = "inject";
+      safe_nargs = atoi (tok[3]);
+      tok[0] = ij;
+      n = 3;
     }
   if (!strcmp (tok[0], "injectco") && n == 1)
     {
